@@ -200,6 +200,8 @@ def recvWindowUpdate (s : Streams) (id : Nat) (inc : Nat) : Streams × Except PE
 /-- `Inner::recv_push_promise(send_buffer, frame)`; `h` is the promised request (`h.sid` = promised id) -/
 def recvPushPromise (s : Streams) (id : Nat) (h : HeadersIn) : Streams × Except PErr Unit :=
   let promisedId := h.sid
+  -- a client cannot push, whatever state the referenced stream is in
+  if s.counts.isServer then (s, .error (PErr.libraryGoAway PROTOCOL_ERROR)) else
   -- the initiating stream must exist and be receive-open
   let parent : Streams × Except PErr (Option Nat) :=
     match s.store.findKey? id with
@@ -216,9 +218,8 @@ def recvPushPromise (s : Streams) (id : Nat) (h : HeadersIn) : Streams × Except
           | (s, .ok true) => (s, .error (PErr.libraryReset promisedId REFUSED_STREAM))
           | (s, .ok false) => (s, .ok none)
       else match (s.stream k).state.ensureRecvOpen with
-        | .error e => (s, .error e)                              -- NOTE the stream's own error travels up
-        | .ok false => (s, .error (PErr.libraryGoAway PROTOCOL_ERROR))
         | .ok true => (s, .ok (some k))
+        | _ => (s, .error (PErr.libraryGoAway PROTOCOL_ERROR))   -- `!matches!(.., Ok(true))`
     | none => (s, .error (PErr.libraryGoAway PROTOCOL_ERROR))
   match parent with
   | (s, .error e) => (s, .error e)
